@@ -198,7 +198,7 @@ func dateMachine(deep bool) *machine[date.Date] {
 	bins := []string{bin(2024, 2, 29), bin(1, 1, 1), bin(-44, 3, 15), "", "\x01", "\x02\x00\x00\x07\xe8\x02\x1d", "\x01\x00\x00\x07\xe8\x02", "\x01\x00\x00\x07\xe8\x02\x1d\x00", "\x01\x00\x00\x07\xe8\x0d\x20", "\x01\x00\x00\x07\xe7\x02\x1d", "\x01\x00\x00\x07\xe8\x00\x00", "\x00\x00\x00\x07\xe8\x02\x1d", "\x01\xff\xff\xff\xff\xff\xff"}
 	m.ops = append(m.ops, textOps("UnmarshalBinary", (*date.Date).UnmarshalBinary, bins)...)
 	t1 := time.Date(2020, 5, 17, 23, 59, 59, 0, time.FixedZone("e", 7200))
-	for _, src := range []any{t1, time.Date(1987, 6, 5, 0, 0, 0, 0, time.UTC), time.Time{}, nil, "2020-01-01", []byte("2020-01-01"), int64(5), &t1, 3.5, date.New(2020, 1, 1)} {
+	for _, src := range []any{t1, time.Date(1987, 6, 5, 0, 0, 0, 0, time.UTC), time.Time{}, time.Date(3000000000, 1, 2, 0, 0, 0, 0, time.UTC), time.Date(-3000000000, 1, 2, 0, 0, 0, 0, time.UTC), nil, "2020-01-01", []byte("2020-01-01"), int64(5), &t1, 3.5, date.New(2020, 1, 1)} {
 		src := src
 		m.ops = append(m.ops, op[date.Date]{name: fmt.Sprintf("Scan(%T %v)", src, src), apply: func(r *date.Date, _ []byte) error { return r.Scan(src) }})
 	}
@@ -224,7 +224,8 @@ func romanMachine(deep bool) *machine[roman.Number] {
 
 func semMachine(deep bool) *machine[sem.Ver] {
 	valid := []string{"1.2.3", "v1.2.3-rc.1+b.5", "0.0.0", "10.20.30-alpha", "v2.0.0+meta", "18446744073709551615.0.1--"}
-	bad := []string{"", "1.2", "1.2.3.4", "01.2.3", "1.2.3-", "1.2.3+", "1.2.3-01", "v", "vv1.2.3", "18446744073709551616.0.0", "1.2.3 ", "1.2.3\n", "1.2.3-é", strings.Repeat("1", 1025)}
+	bad := []string{"", "1.2", "1.2.3.4", "01.2.3", "1.2.3-", "1.2.3+", "1.2.3-01", "v", "vv1.2.3", "18446744073709551616.0.0", "1.2.3 ", "1.2.3\n", "1.2.3-é", strings.Repeat("1", 1025),
+		"1.2.3-" + strings.Repeat("a", 70) + "..b", strings.Repeat("x", 100), "1.2.3+" + strings.Repeat("0", 500) + "!", "v" + strings.Repeat("9", 66)}
 	if deep {
 		bad = append(bad, mutants(valid[:3], "01.-+va\xff")...)
 	} else {
